@@ -120,7 +120,7 @@ pub fn run(cx: &mut Cx) -> String {
     let variants = crate::props::c03::VARIANTS;
 
     // (a) chaotic terms
-    cx.prop("chaotic-terms", tier.of(1_200_000, 30_000_000), 300, |src, st| {
+    cx.prop("chaotic-terms", tier.of(500_000, 30_000_000), 300, |src, st| {
         st.eval();
         let mut fuel = 1 + src.below(40);
         let base = gu::gen_chaotic(src, 0, &mut fuel, true);
@@ -134,7 +134,7 @@ pub fn run(cx: &mut Cx) -> String {
 
     // (b) builtin chaos: wrong arity, wrong forces, arbitrary constants
     let all: Vec<F> = gu::all_builtins();
-    cx.prop("builtin-chaos", tier.of(600_000, 12_000_000), 120, |src, st| {
+    cx.prop("builtin-chaos", tier.of(300_000, 12_000_000), 120, |src, st| {
         st.eval();
         let f = all[src.below(all.len())];
         let mut t = T::Builtin(f);
@@ -158,7 +158,7 @@ pub fn run(cx: &mut Cx) -> String {
     });
 
     // (c) decoded from mutated bytes
-    cx.prop("decoded-bytes", tier.of(400_000, 8_000_000), 300, |src, st| {
+    cx.prop("decoded-bytes", tier.of(200_000, 8_000_000), 300, |src, st| {
         st.eval();
         let mk = |src: &mut Src| {
             let mut fuel = 1 + src.below(25);
